@@ -7,6 +7,7 @@ from hypothesis import strategies as st
 from hippolyzer.lib.base.message.message import Message, Block
 from hippolyzer.lib.base.message.msgtypes import PacketFlags
 from hippolyzer.lib.base.network.transport import Direction
+from hippolyzer.lib.proxy.commands import handle_command
 from hippolyzer.lib.base.message.udpdeserializer import UDPMessageDeserializer
 from hippolyzer.lib.base.settings import Settings
 from hippolyzer.lib.proxy.circuit import ProxiedCircuit
@@ -179,10 +180,11 @@ B_LLUDP = ["none", "zero", "empty", "false", "true", "one", "obj", "raise_exc", 
            "take_keep", "take_send", "take_send_twice", "take_then_send_orig", "drop", "drop_twice", "drop_then_send",
            "send_orig", "send_orig_twice", "send_orig_true", "send_new", "mutate"]
 B_RLV = ["none", "true", "raise_exc", "false"]
-B_SUB = ["absent", "noop", "raise", "pred_raise", "pred_false", "take_waitfor", "take_async", "observe_async", "unsub_self"]
+B_SUB = ["absent", "noop", "raise", "pred_raise", "pred_false", "take_waitfor", "take_async", "observe_async", "unsub_self",
+         "take_waitfor_pred_raise", "take_async_pred_raise"]
 HOOKS = (("packet", B_PACKET), ("lludp", B_LLUDP), ("rlv", B_RLV), ("session_sub", B_SUB), ("region_sub", B_SUB))
 DEFAULT = {"packet": "none", "lludp": "none", "rlv": "none", "session_sub": "absent", "region_sub": "absent"}
-MSG_KINDS = ["v2s_rel", "s2v_unrel", "v2s_cmd", "s2v_rlv1", "s2v_rlv3", "s2v_rel_acks", "s2v_rlv0"]
+MSG_KINDS = ["v2s_rel", "s2v_unrel", "v2s_cmd", "s2v_rlv1", "s2v_rlv3", "s2v_rel_acks", "s2v_rlv0", "v2s_cmd_bad", "v2s_cmd_ok"]
 
 
 class _Custom(Exception):
@@ -226,6 +228,11 @@ class Addon:
         b = self.prog["packet"]
         self.rec.log.append((self.rec.cur, self.idx, "packet", b))
         return self._ret(b)
+
+    @handle_command(count=int)
+    async def repeat(self, _session, _region, count: int):
+        """a command with a typed parameter: "repeat lots" fails in parameter parsing, synchronously"""
+        self.rec.log.append((self.rec.cur, self.idx, "command", count))
 
     def handle_rlv_command(self, session, region, source, behaviour, options, param):
         b = self.prog["rlv"]
@@ -390,6 +397,16 @@ def run_program(program):
                     cbf = mk()
                     for n in names:
                         handler.register(n).subscribe(cbf, predicate=pred)
+                elif b in ("take_waitfor_pred_raise", "take_async_pred_raise"):
+                    # a claimant whose predicate fails has not accepted the message: it must not get (take) it
+                    def bad_pred(msg, a=a):
+                        raise _Custom("claimant predicate of addon %d fails" % a.idx)
+                    if b == "take_waitfor_pred_raise":
+                        keep.append(handler.wait_for(names, predicate=bad_pred, take=True))
+                    else:
+                        cm = handler.subscribe_async(names, predicate=bad_pred, take=True)
+                        cm.__enter__()
+                        cms.append(cm)
                 elif b == "take_waitfor":
                     keep.append(handler.wait_for(names, take=True))
                 elif b in ("take_async", "observe_async"):
@@ -409,6 +426,11 @@ def run_program(program):
             elif kind == "v2s_cmd":
                 pid_out += 1
                 case = _chat_v2s(pid_out, 524, True, "nosuchcommand %d" % k, world)
+                direction, pid, reliable = "out", pid_out, True
+            elif kind in ("v2s_cmd_bad", "v2s_cmd_ok"):
+                # a command an addon does provide: with a parameter that cannot be parsed (the handler fails at once) / a good one
+                pid_out += 1
+                case = _chat_v2s(pid_out, 524, True, "repeat lots" if kind == "v2s_cmd_bad" else "repeat 3", world)
                 direction, pid, reliable = "out", pid_out, True
             elif kind == "s2v_unrel":
                 pid_in += 1
@@ -483,7 +505,7 @@ def run_program(program):
                         takes_by_subs += 1
                         waitfor_left[(a.idx, level)] = False
             # lludp-level
-            cmd_channel = kind == "v2s_cmd"
+            cmd_channel = kind in ("v2s_cmd", "v2s_cmd_bad", "v2s_cmd_ok")
             reached_lludp = []
             hook_truthy = False
             rlv_all_handled = False
@@ -505,6 +527,9 @@ def run_program(program):
                             hook_truthy = True
                             break
             got_lludp = [x[1] for x in hooklog if x[2] == "lludp"]
+            if cmd_channel and got_lludp:
+                out.append(("command-channel:hooks-ran", "message %d (%s) was claimed by the proxy's command channel, yet handle_lludp_message "
+                            "ran for addons %r" % (k, kind, got_lludp)))
             if [x for x in got_lludp if x in reached_lludp] != reached_lludp and not (n_rlv and not reached_lludp):
                 out.append(("isolation:lludp-hooks", "message %d (%s): handle_lludp_message ran for addons %r, expected %r (programs %r)" % (
                     k, kind, got_lludp, reached_lludp, [a.prog["lludp"] for a in addons])))
@@ -582,7 +607,7 @@ def program_from(placements, kinds):
 
 
 STREAMS = [["v2s_rel", "s2v_unrel", "v2s_rel"], ["s2v_rlv1", "v2s_rel", "s2v_rlv3"], ["v2s_cmd", "s2v_rel_acks", "v2s_rel"],
-           ["s2v_rel_acks", "s2v_rlv3", "s2v_unrel"], ["s2v_rlv0", "v2s_rel", "s2v_rlv0"]]
+           ["s2v_rel_acks", "s2v_rlv3", "s2v_unrel"], ["s2v_rlv0", "v2s_rel", "s2v_rlv0"], ["v2s_cmd_bad", "v2s_rel", "v2s_cmd_ok"]]
 
 
 def shards(tier):
@@ -595,7 +620,7 @@ def shards(tier):
     for i in range(16):
         sh.append({"kind": "single", "lo": i, "step": 16})
     for i in range(48):
-        sh.append({"kind": "pairs", "lo": i, "step": 48, "streams": 5 if th else 2})
+        sh.append({"kind": "pairs", "lo": i, "step": 48, "streams": 6 if th else 2})
     for i in range(8):
         sh.append({"kind": "random", "n": 4000 if th else 100})
     return sh
@@ -632,7 +657,7 @@ def run_shard(ctx, shard):
         cls = Counter()
         sample = None
         for placements in work:
-            for stream in STREAMS[:shard.get("streams", 5)]:
+            for stream in STREAMS[:shard.get("streams", 6)]:
                 prog = program_from(placements, stream)
                 res, classes = run_program(prog)
                 n += 1
